@@ -286,7 +286,12 @@ def clip_rules(ctx, d2, vle):
         hi = cmp_outcome(p, fr, (ast.Gt,), 1) if fr else None
         lo = cmp_outcome(p, fr, (ast.Lt,), 0) if fr else None
         sf = p.lin.env.get(fr) if fr else None
-        used = fr is not None and any(e.kind == 'store' and vle_side(e.target) and any(isinstance(x, ast.Name) and x.id == fr for x in ast.walk(e.stmt.value))
+        # the fraction may reach the stores through locals computed from it (v = F * frac * y; rows[...] = v)
+        carriers = {fr} if fr else set()
+        for e in p.events:
+            if e.kind == 'assign' and isinstance(e.stmt, ast.Assign) and any(isinstance(x, ast.Name) and x.id in carriers for x in ast.walk(e.stmt.value)):
+                carriers.add(e.target)
+        used = fr is not None and any(e.kind == 'store' and vle_side(e.target) and any(isinstance(x, ast.Name) and x.id in carriers for x in ast.walk(e.stmt.value))
                                       for e in p.events)
         if not used:
             bad = 'the clamped fraction is not the one used in the phase stores'
